@@ -1735,6 +1735,9 @@ class LeCreditBasedChannel(utils.EventEmitter):
         if self.disconnection_result is not None:
             self.disconnection_result.set_result(None)
             self.disconnection_result = None
+        # Nothing can be sent anymore: discard what is queued and release drain() waiters
+        self.flush_output()
+        self.drained.set()
 
     def on_pdu(self, pdu: bytes) -> None:
         if self.sink is None:
